@@ -113,3 +113,11 @@ def next_smooth(n):
     t = smooth_table()
     i = bisect.bisect_left(t, n)
     return t[i]
+
+
+def kept_range(start, stop_abs, N):
+    """Samples [b, e) kept when the first ``start`` and everything from ``stop_abs`` on are invalid (specification, not Python's
+    slice arithmetic: a negative ``stop_abs`` means *nothing* is valid, it does not count from the end)."""
+    b = min(max(start, 0), N)
+    e = max(b, min(N, max(stop_abs, 0)))
+    return b, e
